@@ -196,7 +196,7 @@ def _read_tables() -> dict[str, dict[str, int | None]]:
     }
 
 
-def _read_request_wraps() -> tuple[bool, bool]:
+def _read_request_wraps() -> tuple[bool, bool, bool]:
     """Does `_read_request` re-raise (a) an IPCError of the first batch read, (b) any failure of the kwargs
     materialisation (`f.name`, `.as_py()`) as `RpcError`?  (Both are then caught as RpcError by the HTTP shells.)"""
     fn = _func(_tree("vgi_rpc/rpc/_wire.py"), "_read_request")
@@ -206,15 +206,18 @@ def _read_request_wraps() -> tuple[bool, bool]:
 
     batch = False
     kwargs = False
+    empty = False
     for t in [t for t in ast.walk(fn) if isinstance(t, ast.Try) and t.handlers]:
         body_src = " ".join(ast.unparse(x) for x in t.body)
         for h in t.handlers:
             ty = ast.unparse(h.type) if h.type is not None else ""
             if "read_next_batch_with_custom_metadata" in body_src and ty == "IPCError" and raises_rpc_error(h):
                 batch = True
+            if "read_next_batch_with_custom_metadata" in body_src and ty == "StopIteration" and raises_rpc_error(h):
+                empty = True
             if ".as_py()" in body_src and "f.name" in body_src and ty == "Exception" and raises_rpc_error(h):
                 kwargs = True
-    return batch, kwargs
+    return batch, kwargs, empty
 
 
 def _set_http_status() -> tuple[int, int, bool]:
@@ -465,7 +468,7 @@ def emit() -> dict[str, str]:
     parse, val = _probes()
     tables = _read_tables()
     translated, to, marker = _set_http_status()
-    wraps_batch, wraps_kwargs = _read_request_wraps()
+    wraps_batch, wraps_kwargs, wraps_empty = _read_request_wraps()
     order, ct_status, nf_status, ct_op = _resolve_method()
     guards = {c: _resource_guard(c) for c in ("_RpcResource", "_StreamInitResource", "_ExchangeResource")}
     mw = _middleware_order()
@@ -501,6 +504,7 @@ open VgiVerif.HttpReq
 /-- `_read_request`: the first batch's `IPCError` / a kwargs materialisation failure is re-raised as `RpcError` -/
 def readWrapsBatchValidation : Bool := {str(wraps_batch).lower()}
 def readWrapsKwargs : Bool := {str(wraps_kwargs).lower()}
+def readWrapsEmptyStream : Bool := {str(wraps_empty).lower()}
 
 /-- `_set_http_status`: `if status_code == HTTPStatus(translatedStatus): resp.status = translatedTo; set X-VGI-RPC-Error` -/
 def translatedStatus : Nat := {translated}
@@ -558,6 +562,7 @@ def tables : Tables where
   exchangeParse := exchangeParse
   readWrapsBatchValidation := readWrapsBatchValidation
   readWrapsKwargs := readWrapsKwargs
+  readWrapsEmptyStream := readWrapsEmptyStream
   translatedStatus := translatedStatus
   translatedTo := translatedTo
   translationSetsMarker := translationSetsMarker
